@@ -41,8 +41,6 @@ import CatVerif.Proofs.Log
 import CatVerif.Proofs.Stutter
 import CatVerif.Proofs.DispatchIO
 import CatVerif.Proofs.Sched
-import CatVerif.Proofs.Steps.ReadChar
-import CatVerif.Proofs.Steps.Output
 namespace Cat
 open St
 
@@ -104,11 +102,6 @@ theorem C12_writers (D : Desc) (s : St) (i : SvcIn) :
     (s.ustate ≠ .flushWrite → tr .wrU (unsolicitedEventsService D s i).1.log = tr .wrU s.log) :=
   ⟨commandService_no_write D s i, unsolicitedEventsService_no_write D s i⟩
 
-/-- the io call sites of the source are where the model reads and writes (T6) -/
-theorem C12_io_sites_generated :
-    (∀ st, Reading st ↔ st ∈ Gen.readingStates) ∧ Gen.writingStates = [.flushWrite] ∧ Gen.uwritingStates = [.flushWrite] :=
-  ⟨reading_generated, writing_generated.1, writing_generated.2⟩
-
 /-- a call in which every io attempt is refused changes nothing but the log of that call -/
 theorem C12_refused_call_is_noop (D : Desc) (s : St) (i : SvcIn) (hu : StutterU D s i) (hc : StutterC D s i) :
     ∃ l, (serviceBody D s i).1 = { s with log := l } :=
@@ -134,11 +127,6 @@ example (D : Desc) : StutterU D (init D [] [] []) {} ∧ StutterC D (init D [] [
 example : ∃ (s : St) (i : SvcIn), s.state = .flushWrite ∧ i.wr = false ∧ (writeByte default s .cmd).1 ≠ 0 :=
   ⟨{ (default : St) with state := .flushWrite, writeSrc := .nl 1 }, { wr := false }, rfl, rfl, by decide⟩
 
-/-- `read_cmd_char` — the only place where input is taken: a refused read returns at once and changes
-nothing; an accepted byte is stored and, outside argument collection, case-folded — is, in the model,
-the function whose statements are re-recognised in the source on every run (translator item T14) -/
-theorem C12_read_generated : readCmdChar = Gen.read_cmd_char := readCmdChar_generated
-
 /-- one call under a schedule: a pure refusal, or the eager schedule's call -/
 theorem C12_slot_step (D : Desc) (tmpl : SvcIn) (s : St) (q : List Byte) (sl : Slot) (hs0 : s.log = []) (hf : fetchOk D s sl = true) :
     ((∃ e, isRefusal e = true ∧ (commandService D s (slotIn tmpl q sl)).1 = { s with log := [e] }) ∧
@@ -163,10 +151,5 @@ theorem C12_alone (D : Desc) (s : St) (i : SvcIn) (hu : s.ustate = .idle) (hc : 
 /-- non-vacuity: a schedule that withholds the input once and then offers it, run on `AT` LF -/
 example : (runS default {} (init default [] [] []) [65, 84, 10]
     [⟨false, true⟩, ⟨true, false⟩, ⟨true, true⟩, ⟨false, false⟩, ⟨true, true⟩]).2.2.2 = true := by decide
-
-/-- the two output steps (offer the byte, advance only when it was accepted) are the functions re-recognised in
-`process_io_write` / `unsolicited_process_io_write` on every run (translator item T10) -/
-theorem C12_write_generated : processIoWrite = Gen.process_io_write ∧ unsolicitedProcessIoWrite = Gen.unsolicited_process_io_write :=
-  ⟨processIoWrite_generated, unsolicitedProcessIoWrite_generated⟩
 
 end Cat
